@@ -141,7 +141,7 @@ Definition einsum2 (la lb lo : list nat) (A B : arr) : res arr :=
                               aget B (gather env (oi ++ si) fb (shp B)))%Z)
                   (indices sshape)))).
 
-(* ndarray.transpose(*axes): negative axes are normalised, repeated / out-of-range axes and a wrong
+(* ndarray.transpose(axes): negative axes are normalised, repeated / out-of-range axes and a wrong
    number of axes raise ValueError (AxisError is a subclass) *)
 Definition norm_axis (nd : nat) (a : Z) : res nat :=
   if ((a <? - Z.of_nat nd) || (Z.of_nat nd <=? a))%Z then Err ValueError
@@ -165,21 +165,25 @@ Definition transpose (a : arr) (axes : list Z) : res arr :=
 (* ------------------------------------------------------------------ _tensor_product_shape *)
 (* zip_longest(a, b, fillvalue=1) followed by the branch of the loop body *)
 Fixpoint tps_bcast (a b : list nat) : res (list nat) :=   (* a, b = shape[-rank-1::-1] *)
-  match a, b with
-  | [], [] => Ok []
-  | x :: a', [] => do t <- tps_bcast a' []; Ok (Nat.max x 1 :: t)      (* 1 in dims *)
-  | [], y :: b' => do t <- tps_bcast [] b'; Ok (Nat.max 1 y :: t)
-  | x :: a', y :: b' =>
-      do t <- tps_bcast a' b';
-      if (x =? 1) || (y =? 1) then Ok (Nat.max x y :: t)
-      else if x =? y then Ok (x :: t) else Err ValueError
+  match a with
+  | [] => Ok (map (fun y => Nat.max 1 y) b)                 (* (1, y): 1 in dims *)
+  | x :: a' =>
+      match b with
+      | [] => Ok (map (fun x => Nat.max x 1) a)
+      | y :: b' =>
+          do t <- tps_bcast a' b';
+          if (x =? 1) || (y =? 1) then Ok (Nat.max x y :: t)
+          else if x =? y then Ok (x :: t) else Err ValueError
+      end
   end.
 Fixpoint zipmul (a b : list nat) : list nat :=           (* a, b = shape[:-rank-1:-1] *)
-  match a, b with
-  | [], [] => []
-  | x :: a', [] => x * 1 :: zipmul a' []
-  | [], y :: b' => 1 * y :: zipmul [] b'
-  | x :: a', y :: b' => x * y :: zipmul a' b'
+  match a with
+  | [] => map (fun y => 1 * y) b
+  | x :: a' =>
+      match b with
+      | [] => map (fun x => x * 1) a
+      | y :: b' => x * y :: zipmul a' b'
+      end
   end.
 Definition tensor_product_shape (sa sb : list nat) (rank : nat) : res (list nat) :=
   do bs <- tps_bcast (rev (lead rank sa)) (rev (lead rank sb));
@@ -214,7 +218,7 @@ Definition binary_tensor (rank : nat) (A B : arr) : res arr :=
   do r <- einsum2 la lb lo A B;
   reshape r outshape.
 
-(* tuple(binary_tensor(*args[i:i+2]) for i in range(bit, n, 2)) on args[bit:] *)
+(* tuple(binary_tensor of args[i:i+2] for i in range(bit, n, 2)) on args[bit:] *)
 Fixpoint pair_up (f : arr -> arr -> res arr) (l : list arr) : res (list arr) :=
   match l with
   | a :: b :: t => do c <- f a b; do t' <- pair_up f t; Ok (c :: t')
@@ -268,8 +272,8 @@ Definition div_ok (dv : Z) : bool := ((dv =? -1) || (dv =? 0))%Z.
 
 (* the loop `for i, (p, div, arg, arg_counter) in enumerate(sorted(...))`, generic in the state that
    is threaded through (the real one: result array and carr_dims); step gets (p, i) *)
-Fixpoint insert_loop {S A} (step : S -> A -> nat -> nat -> res S)
-         (items : list (Z * Z * A)) (i : nat) (s : S) : res S :=
+Fixpoint insert_loop {St A} (step : St -> A -> nat -> nat -> res St)
+         (items : list (Z * Z * A)) (i : nat) (s : St) : res St :=
   match items with
   | [] => Ok s
   | (p, dv, a) :: t =>
